@@ -1,8 +1,8 @@
 import GuppyVerif.Model.Session
 import GuppyVerif.Spec.C11
 /-! Helper lemmas for C11: a simulation between two runs of the session model that differ only in
-    counters (`tmpCtr`, `defCtr`, `store`, the `base` of cached CFGs), and the session invariant
-    (nothing leaked into the frame, tracing mode off). -/
+    counters (`defCtr`, `store`, and — in the inexact variant `Rel false` — `tmpCtr` and the `base` of cached
+    CFGs), and the session invariant (nothing leaked into the frame, tracing mode off, `parsing` empty). -/
 namespace GuppyVerif.Session
 
 /-! ## sorting is invariant under shifting the counters -/
@@ -36,35 +36,42 @@ theorem natLt_shiftInv : ShiftInv natLt := by
   intro b i j
   simp [natLt]
 
-/-! ## the simulation relation -/
+/-! ## the simulation relation
 
-inductive RelL : List Checked → List Checked → Prop
-  | nil : RelL [] []
-  | cons {c c' : Checked} {l l' : List Checked} : c.core = c'.core → RelL l l' → RelL (c :: l) (c' :: l')
+`Rel x s s'`: the two states agree on everything but counters.  With `x = true` (exact) they also agree
+on the `%tmp` counter and on the base of every cached CFG — then any order on generated names gives the
+same rows; with `x = false` the order has to be invariant under renumbering. -/
 
-structure Rel (s s' : State) : Prop where
-  checked : RelL s.checked s'.checked
+inductive RelL (x : Bool) : List Checked → List Checked → Prop
+  | nil : RelL x [] []
+  | cons {c c' : Checked} {l l' : List Checked} : c.core = c'.core → (x = true → c.base = c'.base) →
+      RelL x l l' → RelL x (c :: l) (c' :: l')
+
+structure Rel (x : Bool) (s s' : State) : Prop where
+  checked : RelL x s.checked s'.checked
   parsed : s.parsed = s'.parsed
   leaks : s.leaks = s'.leaks
   tracing : s.tracing = s'.tracing
+  parsing : s.parsing = s'.parsing
+  tmp : x = true → s.tmpCtr = s'.tmpCtr
 
-theorem RelL.any_id {l l' : List Checked} (h : RelL l l') (n : Nat) :
+theorem RelL.any_id {x : Bool} {l l' : List Checked} (h : RelL x l l') (n : Nat) :
     l.any (·.core.id == n) = l'.any (·.core.id == n) := by
   induction h with
   | nil => rfl
-  | cons hc _ ih => simp [List.any_cons, hc, ih]
+  | cons hc _ _ ih => simp [List.any_cons, hc, ih]
 
-theorem RelL.append {l l' m m' : List Checked} (h : RelL l l') (hm : RelL m m') :
-    RelL (l ++ m) (l' ++ m') := by
+theorem RelL.append {x : Bool} {l l' m m' : List Checked} (h : RelL x l l') (hm : RelL x m m') :
+    RelL x (l ++ m) (l' ++ m') := by
   induction h with
   | nil => simpa using hm
-  | cons hc _ ih => exact RelL.cons hc ih
+  | cons hc hb _ ih => exact RelL.cons hc hb ih
 
-theorem Rel.hasChecked {s s' : State} (h : Rel s s') : s.hasChecked = s'.hasChecked := by
+theorem Rel.hasChecked {x : Bool} {s s' : State} (h : Rel x s s') : s.hasChecked = s'.hasChecked := by
   funext n
   exact h.checked.any_id n
 
-theorem Rel.resolve {s s' : State} (h : Rel s s') (P : Pool) (d : Nat) :
+theorem Rel.resolve {x : Bool} {s s' : State} (h : Rel x s s') (P : Pool) (d : Nat) :
     resolve P s d = resolve P s' d := by
   unfold Session.resolve
   rw [h.leaks]
@@ -75,7 +82,7 @@ theorem bumpNested_frame (cfg : Config) (hc : cfg.nestedRecBindsInFrame = false)
     (ns : List Nested) :
     (bumpNested cfg s ns).checked = s.checked ∧ (bumpNested cfg s ns).leaks = s.leaks ∧
       (bumpNested cfg s ns).tracing = s.tracing ∧ (bumpNested cfg s ns).tmpCtr = s.tmpCtr ∧
-      (bumpNested cfg s ns).parsed = s.parsed := by
+      (bumpNested cfg s ns).parsed = s.parsed ∧ (bumpNested cfg s ns).parsing = s.parsing := by
   induction ns generalizing s with
   | nil => simp [bumpNested]
   | cons nd rest ih =>
@@ -86,44 +93,129 @@ theorem bumpNested_frame (cfg : Config) (hc : cfg.nestedRecBindsInFrame = false)
     · have := ih { s with defCtr := s.defCtr + 1 }
       simpa using this
 
+/-! ## parsing -/
+
+theorem parseDef_rel (cfg : Config) (P : Pool) (n : Nat) {x : Bool} {s s' : State} (h : Rel x s s') :
+    Rel x (parseDef cfg P n s).1 (parseDef cfg P n s').1 ∧
+      (parseDef cfg P n s).2 = (parseDef cfg P n s').2 := by
+  unfold parseDef
+  rw [h.parsing]
+  split
+  · exact ⟨h, rfl⟩
+  · have hrel : Rel x (if cfg.parseRestores then s else { s with parsing := n :: s'.parsing })
+        (if cfg.parseRestores then s' else { s' with parsing := n :: s'.parsing }) := by
+      split
+      · exact h
+      · exact ⟨h.checked, h.parsed, h.leaks, h.tracing, rfl, h.tmp⟩
+    simp only
+    split
+    · split <;> exact ⟨hrel, rfl⟩
+    · exact ⟨hrel, rfl⟩
+
+theorem getParsed_rel (cfg : Config) (P : Pool) (n : Nat) {x : Bool} {s s' : State} (h : Rel x s s') :
+    Rel x (getParsed cfg P n s).1 (getParsed cfg P n s').1 ∧
+      (getParsed cfg P n s).2 = (getParsed cfg P n s').2 := by
+  unfold getParsed
+  rw [h.parsed]
+  split
+  · exact ⟨h, rfl⟩
+  · exact parseDef_rel cfg P n h
+
+/-- a parse changes nothing but (possibly) `parsing` -/
+theorem parseDef_frame (cfg : Config) (P : Pool) (n : Nat) (s : State) :
+    (parseDef cfg P n s).1.leaks = s.leaks ∧ (parseDef cfg P n s).1.tracing = s.tracing := by
+  unfold parseDef
+  split
+  · exact ⟨rfl, rfl⟩
+  · simp only
+    split
+    · split <;> split <;> exact ⟨rfl, rfl⟩
+    · split <;> exact ⟨rfl, rfl⟩
+
+theorem getParsed_frame (cfg : Config) (P : Pool) (n : Nat) (s : State) :
+    (getParsed cfg P n s).1.leaks = s.leaks ∧ (getParsed cfg P n s).1.tracing = s.tracing := by
+  unfold getParsed
+  split
+  · exact ⟨rfl, rfl⟩
+  · exact parseDef_frame cfg P n s
+
+/-- with the `finally` in `_parse`, a parse — failing or not — leaves `parsing` as it was -/
+theorem parseDef_parsing (cfg : Config) (hp : cfg.parseRestores = true) (P : Pool) (n : Nat) (s : State) :
+    (parseDef cfg P n s).1 = s := by
+  unfold parseDef
+  split
+  · rfl
+  · simp only
+    split
+    · split <;> rfl
+    · rfl
+
+theorem getParsed_parsing (cfg : Config) (hp : cfg.parseRestores = true) (P : Pool) (n : Nat) (s : State) :
+    (getParsed cfg P n s).1 = s := by
+  unfold getParsed
+  split
+  · rfl
+  · exact parseDef_parsing cfg hp P n s
+
 /-! ## checking -/
 
+theorem checkBody_rel (cfg : Config) (hc : cfg.nestedRecBindsInFrame = false) (P : Pool) (n : Nat)
+    (r : RawDef) {x : Bool} {s s' : State} (h : Rel x s s') :
+    Rel x (checkBody cfg P n r s).1 (checkBody cfg P n r s').1 ∧
+      (checkBody cfg P n r s).2 = (checkBody cfg P n r s').2 := by
+  unfold checkBody
+  simp only
+  have e1 : ∀ d, Session.resolve P s d = Session.resolve P s' d := h.resolve P
+  have b := bumpNested_frame cfg hc (s.beginCheck n r.tmps) r.nested
+  have b' := bumpNested_frame cfg hc (s'.beginCheck n r.tmps) r.nested
+  have hrel : Rel x (bumpNested cfg (s.beginCheck n r.tmps) r.nested)
+      (bumpNested cfg (s'.beginCheck n r.tmps) r.nested) :=
+    ⟨by rw [b.1, b'.1]; exact h.checked,
+     by rw [b.2.2.2.2.1, b'.2.2.2.2.1]; simp only [State.beginCheck, h.parsed],
+     by rw [b.2.1, b'.2.1]; exact h.leaks,
+     by rw [b.2.2.1, b'.2.2.1]; exact h.tracing,
+     by rw [b.2.2.2.2.2, b'.2.2.2.2.2]; exact h.parsing,
+     by intro hx; rw [b.2.2.2.1, b'.2.2.2.1]; simp only [State.beginCheck, h.tmp hx]⟩
+  have hnew : RelL x [(⟨⟨n, 0, 0⟩, s.tmpCtr⟩ : Checked)] [⟨⟨n, 0, 0⟩, s'.tmpCtr⟩] :=
+    RelL.cons rfl h.tmp RelL.nil
+  simp only [e1]
+  split
+  · exact ⟨⟨hrel.checked.append hnew, hrel.parsed, hrel.leaks, hrel.tracing, hrel.parsing, hrel.tmp⟩, rfl⟩
+  · split
+    · exact ⟨hrel, rfl⟩
+    · split
+      · exact ⟨hrel, rfl⟩
+      · split
+        · exact ⟨hrel, by rw [hrel.tracing]⟩
+        · split
+          · exact ⟨hrel, rfl⟩
+          · exact ⟨⟨hrel.checked.append hnew, hrel.parsed, hrel.leaks, hrel.tracing, hrel.parsing,
+              hrel.tmp⟩, rfl⟩
+
 theorem checkOne_rel (cfg : Config) (hc : cfg.nestedRecBindsInFrame = false) (P : Pool) (n : Nat)
-    {s s' : State} (h : Rel s s') :
-    Rel (checkOne cfg P n s).1 (checkOne cfg P n s').1 ∧
+    {x : Bool} {s s' : State} (h : Rel x s s') :
+    Rel x (checkOne cfg P n s).1 (checkOne cfg P n s').1 ∧
       (checkOne cfg P n s).2 = (checkOne cfg P n s').2 := by
   unfold checkOne
   cases hp : P[n]? with
   | none => exact ⟨h, rfl⟩
   | some r =>
     simp only
-    have e1 : ∀ d, Session.resolve P s d = Session.resolve P s' d := h.resolve P
-    have b := bumpNested_frame cfg hc (s.beginCheck n r.tmps) r.nested
-    have b' := bumpNested_frame cfg hc (s'.beginCheck n r.tmps) r.nested
-    have hrel : Rel (bumpNested cfg (s.beginCheck n r.tmps) r.nested)
-        (bumpNested cfg (s'.beginCheck n r.tmps) r.nested) :=
-      ⟨by rw [b.1, b'.1]; exact h.checked,
-       by rw [b.2.2.2.2, b'.2.2.2.2]; simp only [State.beginCheck, h.parsed],
-       by rw [b.2.1, b'.2.1]; exact h.leaks,
-       by rw [b.2.2.1, b'.2.2.1]; exact h.tracing⟩
-    simp only [e1]
-    split
-    · refine ⟨⟨?_, hrel.parsed, hrel.leaks, hrel.tracing⟩, rfl⟩
-      exact hrel.checked.append (RelL.cons rfl RelL.nil)
-    · split
-      · exact ⟨hrel, rfl⟩
-      · split
-        · exact ⟨hrel, rfl⟩
-        · split
-          · exact ⟨hrel, by rw [hrel.tracing]⟩
-          · split
-            · exact ⟨hrel, rfl⟩
-            · refine ⟨⟨?_, hrel.parsed, hrel.leaks, hrel.tracing⟩, rfl⟩
-              exact hrel.checked.append (RelL.cons rfl RelL.nil)
+    have hg := getParsed_rel cfg P n h
+    rcases h1 : getParsed cfg P n s with ⟨t, o⟩
+    rcases h2 : getParsed cfg P n s' with ⟨t', o'⟩
+    rw [h1, h2] at hg
+    obtain ⟨hrel, hres⟩ := hg
+    simp only at hrel hres
+    subst hres
+    cases o with
+    | error e => exact ⟨hrel, rfl⟩
+    | ok u => exact checkBody_rel cfg hc P n r hrel
 
-theorem checkLoop_rel (cfg : Config) (hc : cfg.nestedRecBindsInFrame = false) (P : Pool) (f : Nat) :
-    ∀ (work : List Nat) {s s' : State}, Rel s s' →
-      Rel (checkLoop cfg P f work s).1 (checkLoop cfg P f work s').1 ∧
+theorem checkLoop_rel (cfg : Config) (hc : cfg.nestedRecBindsInFrame = false) (P : Pool) (f : Nat)
+    {x : Bool} :
+    ∀ (work : List Nat) {s s' : State}, Rel x s s' →
+      Rel x (checkLoop cfg P f work s).1 (checkLoop cfg P f work s').1 ∧
         (checkLoop cfg P f work s).2 = (checkLoop cfg P f work s').2 := by
   induction f with
   | zero =>
@@ -150,67 +242,67 @@ theorem checkLoop_rel (cfg : Config) (hc : cfg.nestedRecBindsInFrame = false) (P
         | ok deps =>
           simp only
           rw [hrel.parsed]
-          exact ih _ ⟨hrel.checked, rfl, hrel.leaks, hrel.tracing⟩
+          exact ih _ ⟨hrel.checked, rfl, hrel.leaks, hrel.tracing, hrel.parsing, hrel.tmp⟩
 
+/-- `check` from two states that agree on the frame, the tracing flag and — unless `reset()` empties it —
+    on `parsing`.  The result is related exactly when `check` restarts the `%tmp` numbering. -/
 theorem check_rel (cfg : Config) (hc : cfg.nestedRecBindsInFrame = false) (hr : cfg.checkResets = true)
-    (P : Pool) (d : Nat) {s s' : State} (hl : s.leaks = s'.leaks) (ht : s.tracing = s'.tracing) :
-    Rel (check cfg P d s).1 (check cfg P d s').1 ∧ (check cfg P d s).2 = (check cfg P d s').2 := by
+    (hpc : cfg.resetClearsParsing = true) (P : Pool) (d : Nat) {s s' : State} (hl : s.leaks = s'.leaks)
+    (ht : s.tracing = s'.tracing) :
+    Rel cfg.checkRestartsTmp (check cfg P d s).1 (check cfg P d s').1 ∧
+      (check cfg P d s).2 = (check cfg P d s').2 := by
   unfold check
   simp only [hr, ↓reduceIte]
-  exact checkLoop_rel cfg hc P _ _ ⟨RelL.nil, rfl, hl, ht⟩
+  have h0 : Rel cfg.checkRestartsTmp
+      (if cfg.checkRestartsTmp then { s.reset cfg with tmpCtr := 0 } else s.reset cfg)
+      (if cfg.checkRestartsTmp then { s'.reset cfg with tmpCtr := 0 } else s'.reset cfg) := by
+    cases hx : cfg.checkRestartsTmp with
+    | true =>
+      simp only [↓reduceIte]
+      exact ⟨RelL.nil, rfl, hl, ht, by simp [State.reset, hpc], fun _ => rfl⟩
+    | false =>
+      simp only [Bool.false_eq_true, ↓reduceIte]
+      exact ⟨RelL.nil, rfl, hl, ht, by simp [State.reset, hpc], fun h => by cases h⟩
+  have hp := parseDef_rel cfg P d h0
+  rcases h1 : parseDef cfg P d (if cfg.checkRestartsTmp then { s.reset cfg with tmpCtr := 0 } else s.reset cfg)
+    with ⟨t, o⟩
+  rcases h2 : parseDef cfg P d (if cfg.checkRestartsTmp then { s'.reset cfg with tmpCtr := 0 } else s'.reset cfg)
+    with ⟨t', o'⟩
+  rw [h1, h2] at hp
+  obtain ⟨hrel, hres⟩ := hp
+  simp only at hrel hres
+  subst hres
+  cases o with
+  | error e => exact ⟨hrel, rfl⟩
+  | ok u => exact checkLoop_rel cfg hc P _ _ hrel
 
 /-! ## lowering -/
 
-theorem findChecked_rel {l l' : List Checked} (h : RelL l l') (n : Nat) :
+theorem findChecked_rel {x : Bool} {l l' : List Checked} (h : RelL x l l') (n : Nat) :
     (findChecked n l = none ∧ findChecked n l' = none) ∨
-      ∃ c c', findChecked n l = some c ∧ findChecked n l' = some c' ∧ c.core = c'.core := by
+      ∃ c c', findChecked n l = some c ∧ findChecked n l' = some c' ∧ c.core = c'.core ∧
+        (x = true → c.base = c'.base) := by
   induction h with
   | nil => exact Or.inl ⟨rfl, rfl⟩
-  | @cons c c' l l' hcc _ ih =>
+  | @cons c c' l l' hcc hb _ ih =>
     simp only [findChecked, hcc]
     split
-    · exact Or.inr ⟨c, c', rfl, rfl, hcc⟩
+    · exact Or.inr ⟨c, c', rfl, rfl, hcc, hb⟩
     · exact ih
 
-theorem updChecked_rel {l l' : List Checked} (h : RelL l l') (n : Nat) (f : CfgCore → CfgCore) :
-    RelL (updChecked n f l) (updChecked n f l') := by
+theorem updChecked_rel {x : Bool} {l l' : List Checked} (h : RelL x l l') (n : Nat) (f : CfgCore → CfgCore) :
+    RelL x (updChecked n f l) (updChecked n f l') := by
   induction h with
   | nil => exact RelL.nil
-  | @cons c c' l l' hcc _ ih =>
+  | @cons c c' l l' hcc hb _ ih =>
     simp only [updChecked, hcc]
     split
-    · exact RelL.cons (by simp) ih
-    · exact RelL.cons hcc ih
-
-theorem compileOne_rel (cfg : Config) {lt : Nat → Nat → Bool} (hlt : ShiftInv lt) (P : Pool) (n : Nat)
-    {s s' : State} (h : Rel s s') :
-    Rel (compileOne cfg lt P n s).1 (compileOne cfg lt P n s').1 ∧
-      (compileOne cfg lt P n s).2 = (compileOne cfg lt P n s').2 := by
-  unfold compileOne
-  cases hp : P[n]? with
-  | none => exact ⟨h, rfl⟩
-  | some r =>
-    rcases findChecked_rel h.checked n with ⟨e1, e2⟩ | ⟨c, c', e1, e2, hcc⟩
-    · rw [e1, e2]; exact ⟨h, rfl⟩
-    · rw [e1, e2]
-      simp only
-      have e1 : ∀ d, Session.resolve P s d = Session.resolve P s' d := h.resolve P
-      simp only [e1]
-      split
-      · split
-        · exact ⟨⟨h.checked, h.parsed, h.leaks, by simp [h.tracing]⟩, rfl⟩
-        · split
-          · exact ⟨⟨h.checked, h.parsed, h.leaks, by simp [h.tracing]⟩, rfl⟩
-          · exact ⟨⟨h.checked, h.parsed, h.leaks, h.tracing⟩, rfl⟩
-      · refine ⟨⟨?_, h.parsed, h.leaks, h.tracing⟩, ?_⟩
-        · simp only [hcc]
-          exact updChecked_rel h.checked n _
-        · have e : ∀ b, sortRel lt b = isort lt := fun b => funext (sortRel_shift hlt b)
-          simp only [hcc, e]
+    · exact RelL.cons (by simp) hb ih
+    · exact RelL.cons hcc hb ih
 
 theorem ensureChecked_rel (cfg : Config) (hc : cfg.nestedRecBindsInFrame = false) (P : Pool) (n : Nat)
-    {s s' : State} (h : Rel s s') :
-    Rel (ensureChecked cfg P n s).1 (ensureChecked cfg P n s').1 ∧
+    {x : Bool} {s s' : State} (h : Rel x s s') :
+    Rel x (ensureChecked cfg P n s).1 (ensureChecked cfg P n s').1 ∧
       (ensureChecked cfg P n s).2 = (ensureChecked cfg P n s').2 := by
   unfold ensureChecked
   rw [h.hasChecked]
@@ -228,12 +320,96 @@ theorem ensureChecked_rel (cfg : Config) (hc : cfg.nestedRecBindsInFrame = false
     | ok deps =>
       simp only
       rw [hrel.parsed]
-      exact ⟨⟨hrel.checked, rfl, hrel.leaks, hrel.tracing⟩, by trivial⟩
+      exact ⟨⟨hrel.checked, rfl, hrel.leaks, hrel.tracing, hrel.parsing, hrel.tmp⟩, by trivial⟩
+
+theorem ensureAll_rel (cfg : Config) (hc : cfg.nestedRecBindsInFrame = false) (P : Pool) {x : Bool} :
+    ∀ (ds : List Nat) {s s' : State}, Rel x s s' →
+      Rel x (ensureAll cfg P ds s).1 (ensureAll cfg P ds s').1 ∧
+        (ensureAll cfg P ds s).2 = (ensureAll cfg P ds s').2 := by
+  intro ds
+  induction ds with
+  | nil => intro s s' h; exact ⟨h, rfl⟩
+  | cons d ds ih =>
+    intro s s' h
+    simp only [ensureAll]
+    have hr := ensureChecked_rel cfg hc P d h
+    rcases h1 : ensureChecked cfg P d s with ⟨t, r⟩
+    rcases h2 : ensureChecked cfg P d s' with ⟨t', r'⟩
+    rw [h1, h2] at hr
+    obtain ⟨hrel, hres⟩ := hr
+    simp only at hrel hres
+    subst hres
+    cases r with
+    | error e => exact ⟨hrel, rfl⟩
+    | ok u => exact ih hrel
+
+theorem compileOne_rel (cfg : Config) (hc : cfg.nestedRecBindsInFrame = false) {lt : Nat → Nat → Bool}
+    {x : Bool} (hlt : x = true ∨ ShiftInv lt) (P : Pool) (n : Nat) {s s' : State} (h : Rel x s s') :
+    Rel x (compileOne cfg lt P n s).1 (compileOne cfg lt P n s').1 ∧
+      (compileOne cfg lt P n s).2 = (compileOne cfg lt P n s').2 := by
+  unfold compileOne
+  cases hp : P[n]? with
+  | none => exact ⟨h, rfl⟩
+  | some r =>
+    rcases findChecked_rel h.checked n with ⟨e1, e2⟩ | ⟨c, c', e1, e2, hcc, hb⟩
+    · rw [e1, e2]; exact ⟨h, rfl⟩
+    · rw [e1, e2]
+      simp only
+      have e1 : ∀ d, Session.resolve P s d = Session.resolve P s' d := h.resolve P
+      have htmp : ∀ k, x = true → s.tmpCtr + k = s'.tmpCtr + k := fun k hx => by rw [h.tmp hx]
+      simp only [e1, hcc]
+      split
+      · -- comptime
+        have h1 : Rel x { s with tracing := true, tmpCtr := s.tmpCtr + r.ctmps }
+            { s' with tracing := true, tmpCtr := s'.tmpCtr + r.ctmps } :=
+          ⟨h.checked, h.parsed, h.leaks, rfl, h.parsing, htmp _⟩
+        split
+        · exact ⟨⟨h.checked, h.parsed, h.leaks, by simp [h.tracing], h.parsing, htmp _⟩, rfl⟩
+        · split
+          · exact ⟨⟨h.checked, h.parsed, h.leaks, by simp [h.tracing], h.parsing, htmp _⟩, rfl⟩
+          · have ha := ensureAll_rel cfg hc P r.deps h1
+            rcases q1 : ensureAll cfg P r.deps { s with tracing := true, tmpCtr := s.tmpCtr + r.ctmps }
+              with ⟨t, o⟩
+            rcases q2 : ensureAll cfg P r.deps { s' with tracing := true, tmpCtr := s'.tmpCtr + r.ctmps }
+              with ⟨t', o'⟩
+            rw [q1, q2] at ha
+            obtain ⟨hrel, hres⟩ := ha
+            simp only at hrel hres
+            subst hres
+            cases o with
+            | error e =>
+              exact ⟨⟨hrel.checked, hrel.parsed, hrel.leaks, by simp [h.tracing], hrel.parsing, hrel.tmp⟩, rfl⟩
+            | ok u =>
+              exact ⟨⟨hrel.checked, hrel.parsed, hrel.leaks, h.tracing, hrel.parsing, hrel.tmp⟩, rfl⟩
+      · -- ordinary function
+        have h0 : ∀ g : CfgCore → CfgCore, Rel x { s with checked := updChecked n g s.checked }
+            { s' with checked := updChecked n g s'.checked } := fun g =>
+          ⟨updChecked_rel h.checked n g, h.parsed, h.leaks, h.tracing, h.parsing, h.tmp⟩
+        have ha := ensureAll_rel cfg hc P r.deps (h0 (setRet (retAfter cfg c'.core)))
+        rcases q1 : ensureAll cfg P r.deps
+          { s with checked := updChecked n (setRet (retAfter cfg c'.core)) s.checked } with ⟨t, o⟩
+        rcases q2 : ensureAll cfg P r.deps
+          { s' with checked := updChecked n (setRet (retAfter cfg c'.core)) s'.checked } with ⟨t', o'⟩
+        rw [q1, q2] at ha
+        obtain ⟨hrel, hres⟩ := ha
+        simp only at hrel hres
+        subst hres
+        cases o with
+        | error e => exact ⟨hrel, rfl⟩
+        | ok u =>
+          refine ⟨⟨updChecked_rel hrel.checked n _, hrel.parsed, hrel.leaks, hrel.tracing, hrel.parsing,
+            fun hx => by simp only [hrel.tmp hx]⟩, ?_⟩
+          have e : sortRel lt c.base = sortRel lt c'.base := by
+            rcases hlt with hx | hs
+            · rw [hb hx]
+            · funext row
+              rw [sortRel_shift hs, sortRel_shift hs]
+          simp only [e]
 
 theorem compileLoop_rel (cfg : Config) (hc : cfg.nestedRecBindsInFrame = false)
-    {lt : Nat → Nat → Bool} (hlt : ShiftInv lt) (P : Pool) (f : Nat) :
-    ∀ (work done : List Nat) (acc : List OutEntry) {s s' : State}, Rel s s' →
-      Rel (compileLoop cfg lt P f work done s acc).1 (compileLoop cfg lt P f work done s' acc).1 ∧
+    {lt : Nat → Nat → Bool} {x : Bool} (hlt : x = true ∨ ShiftInv lt) (P : Pool) (f : Nat) :
+    ∀ (work done : List Nat) (acc : List OutEntry) {s s' : State}, Rel x s s' →
+      Rel x (compileLoop cfg lt P f work done s acc).1 (compileLoop cfg lt P f work done s' acc).1 ∧
         (compileLoop cfg lt P f work done s acc).2 = (compileLoop cfg lt P f work done s' acc).2 := by
   induction f with
   | zero =>
@@ -256,7 +432,7 @@ theorem compileLoop_rel (cfg : Config) (hc : cfg.nestedRecBindsInFrame = false)
       | error e => exact ⟨hrel, rfl⟩
       | ok u =>
         simp only
-        have hr2 := compileOne_rel cfg hlt P n hrel
+        have hr2 := compileOne_rel cfg hc hlt P n hrel
         rcases h3 : compileOne cfg lt P n t with ⟨u1, r1⟩
         rcases h4 : compileOne cfg lt P n t' with ⟨u1', r1'⟩
         rw [h3, h4] at hr2
@@ -267,12 +443,15 @@ theorem compileLoop_rel (cfg : Config) (hc : cfg.nestedRecBindsInFrame = false)
         | error e => exact ⟨hrel2, rfl⟩
         | ok e => exact ih _ _ _ hrel2
 
+/-- `compile d` gives the same result from any two states that agree on the frame and the tracing flag,
+    if either `check` restarts the `%tmp` numbering or the order on generated names is shift invariant -/
 theorem lower_rel (cfg : Config) (hc : cfg.nestedRecBindsInFrame = false) (hr : cfg.checkResets = true)
-    {lt : Nat → Nat → Bool} (hlt : ShiftInv lt) (P : Pool) (d : Nat) {s s' : State}
+    (hpc : cfg.resetClearsParsing = true) {lt : Nat → Nat → Bool}
+    (hlt : cfg.checkRestartsTmp = true ∨ ShiftInv lt) (P : Pool) (d : Nat) {s s' : State}
     (hl : s.leaks = s'.leaks) (ht : s.tracing = s'.tracing) :
     (lower cfg lt P d s).2 = (lower cfg lt P d s').2 := by
   unfold lower
-  have h := check_rel cfg hc hr P d hl ht
+  have h := check_rel cfg hc hr hpc P d hl ht
   rcases h1 : check cfg P d s with ⟨t, r⟩
   rcases h2 : check cfg P d s' with ⟨t', r'⟩
   rw [h1, h2] at h
@@ -287,6 +466,26 @@ theorem lower_rel (cfg : Config) (hc : cfg.nestedRecBindsInFrame = false) (hr : 
 
 def Clean (s : State) : Prop := s.leaks = [] ∧ s.tracing = false
 
+theorem checkBody_clean (cfg : Config) (hc : cfg.nestedRecBindsInFrame = false) (P : Pool) (n : Nat)
+    (r : RawDef) (s : State) :
+    (checkBody cfg P n r s).1.leaks = s.leaks ∧ (checkBody cfg P n r s).1.tracing = s.tracing ∧
+      (checkBody cfg P n r s).1.parsing = s.parsing := by
+  unfold checkBody
+  simp only
+  have b := bumpNested_frame cfg hc (s.beginCheck n r.tmps) r.nested
+  have b3 : (bumpNested cfg (s.beginCheck n r.tmps) r.nested).parsing = s.parsing := b.2.2.2.2.2
+  split
+  · exact ⟨b.2.1, b.2.2.1, b3⟩
+  · split
+    · exact ⟨b.2.1, b.2.2.1, b3⟩
+    · split
+      · exact ⟨b.2.1, b.2.2.1, b3⟩
+      · split
+        · exact ⟨b.2.1, b.2.2.1, b3⟩
+        · split
+          · exact ⟨b.2.1, b.2.2.1, b3⟩
+          · exact ⟨b.2.1, b.2.2.1, b3⟩
+
 theorem checkOne_clean (cfg : Config) (hc : cfg.nestedRecBindsInFrame = false) (P : Pool) (n : Nat)
     (s : State) :
     (checkOne cfg P n s).1.leaks = s.leaks ∧ (checkOne cfg P n s).1.tracing = s.tracing := by
@@ -295,18 +494,32 @@ theorem checkOne_clean (cfg : Config) (hc : cfg.nestedRecBindsInFrame = false) (
   | none => exact ⟨rfl, rfl⟩
   | some r =>
     simp only
-    have b := bumpNested_frame cfg hc (s.beginCheck n r.tmps) r.nested
-    split
-    · exact ⟨b.2.1, b.2.2.1⟩
-    · split
-      · exact ⟨b.2.1, b.2.2.1⟩
-      · split
-        · exact ⟨b.2.1, b.2.2.1⟩
-        · split
-          · exact ⟨b.2.1, b.2.2.1⟩
-          · split
-            · exact ⟨b.2.1, b.2.2.1⟩
-            · exact ⟨b.2.1, b.2.2.1⟩
+    have hg := getParsed_frame cfg P n s
+    rcases h1 : getParsed cfg P n s with ⟨t, o⟩
+    rw [h1] at hg
+    simp only at hg
+    cases o with
+    | error e => exact hg
+    | ok u =>
+      have hb := checkBody_clean cfg hc P n r t
+      exact ⟨hb.1.trans hg.1, hb.2.1.trans hg.2⟩
+
+theorem checkOne_parsing (cfg : Config) (hc : cfg.nestedRecBindsInFrame = false)
+    (hp : cfg.parseRestores = true) (P : Pool) (n : Nat) (s : State) :
+    (checkOne cfg P n s).1.parsing = s.parsing := by
+  unfold checkOne
+  cases hq : P[n]? with
+  | none => rfl
+  | some r =>
+    simp only
+    have hg := getParsed_parsing cfg hp P n s
+    rcases h1 : getParsed cfg P n s with ⟨t, o⟩
+    rw [h1] at hg
+    simp only at hg
+    subst hg
+    cases o with
+    | error e => rfl
+    | ok u => exact (checkBody_clean cfg hc P n r t).2.2
 
 theorem checkLoop_clean (cfg : Config) (hc : cfg.nestedRecBindsInFrame = false) (P : Pool) (f : Nat) :
     ∀ (work : List Nat) (s : State),
@@ -332,26 +545,70 @@ theorem checkLoop_clean (cfg : Config) (hc : cfg.nestedRecBindsInFrame = false) 
           have h2 := ih (pushNew deps t.parsed rest).2 { t with parsed := (pushNew deps t.parsed rest).1 }
           exact ⟨h2.1.trans h.1, h2.2.trans h.2⟩
 
+theorem checkLoop_parsing (cfg : Config) (hc : cfg.nestedRecBindsInFrame = false)
+    (hp : cfg.parseRestores = true) (P : Pool) (f : Nat) :
+    ∀ (work : List Nat) (s : State), (checkLoop cfg P f work s).1.parsing = s.parsing := by
+  induction f with
+  | zero => intro work s; cases work <;> rfl
+  | succ f ih =>
+    intro work s
+    cases work with
+    | nil => rfl
+    | cons n rest =>
+      simp only [checkLoop]
+      split
+      · exact ih rest s
+      · have h := checkOne_parsing cfg hc hp P n s
+        rcases h1 : checkOne cfg P n s with ⟨t, r⟩
+        rw [h1] at h
+        simp only at h
+        cases r with
+        | error e => exact h
+        | ok deps =>
+          simp only
+          exact (ih (pushNew deps t.parsed rest).2 { t with parsed := (pushNew deps t.parsed rest).1 }).trans h
+
 theorem check_clean (cfg : Config) (hc : cfg.nestedRecBindsInFrame = false) (P : Pool) (d : Nat)
     (s : State) :
     (check cfg P d s).1.leaks = s.leaks ∧ (check cfg P d s).1.tracing = s.tracing := by
   unfold check
-  split
-  · exact checkLoop_clean cfg hc P _ _ s.reset
-  · exact checkLoop_clean cfg hc P _ _ s
+  simp only
+  generalize hs1 : (if cfg.checkRestartsTmp = true then
+      { (if cfg.checkResets = true then s.reset cfg else s) with tmpCtr := 0 }
+    else (if cfg.checkResets = true then s.reset cfg else s)) = s1
+  have e1 : s1.leaks = s.leaks ∧ s1.tracing = s.tracing := by
+    subst hs1
+    split <;> split <;> exact ⟨rfl, rfl⟩
+  have hg := parseDef_frame cfg P d s1
+  rcases h1 : parseDef cfg P d s1 with ⟨t, o⟩
+  rw [h1] at hg
+  simp only at hg
+  cases o with
+  | error e => exact ⟨hg.1.trans e1.1, hg.2.trans e1.2⟩
+  | ok u =>
+    have h2 := checkLoop_clean cfg hc P (fuelFor P) [d] t
+    exact ⟨h2.1.trans (hg.1.trans e1.1), h2.2.trans (hg.2.trans e1.2)⟩
 
-theorem compileOne_clean (cfg : Config) (ht : cfg.tracingRestored = true) (lt : Nat → Nat → Bool)
-    (P : Pool) (n : Nat) (s : State) :
-    (compileOne cfg lt P n s).1.leaks = s.leaks ∧ (compileOne cfg lt P n s).1.tracing = s.tracing := by
-  unfold compileOne
-  split
-  · simp only [ht, ↓reduceIte]
-    split
-    · split
-      · exact ⟨rfl, rfl⟩
-      · split <;> exact ⟨rfl, rfl⟩
-    · exact ⟨rfl, rfl⟩
-  · exact ⟨rfl, rfl⟩
+/-- a `check` — failing half-way (in a parse, too) included — leaves `parsing` empty if it was -/
+theorem check_parsing (cfg : Config) (hc : cfg.nestedRecBindsInFrame = false)
+    (hp : cfg.parseRestores = true) (P : Pool) (d : Nat) (s : State) (h0 : s.parsing = []) :
+    (check cfg P d s).1.parsing = [] := by
+  unfold check
+  simp only
+  generalize hs1 : (if cfg.checkRestartsTmp = true then
+      { (if cfg.checkResets = true then s.reset cfg else s) with tmpCtr := 0 }
+    else (if cfg.checkResets = true then s.reset cfg else s)) = s1
+  have e1 : s1.parsing = [] := by
+    subst hs1
+    split <;> split <;> simp [State.reset, h0]
+  have hg := parseDef_parsing cfg hp P d s1
+  rcases h1 : parseDef cfg P d s1 with ⟨t, o⟩
+  rw [h1] at hg
+  simp only at hg
+  subst hg
+  cases o with
+  | error e => exact e1
+  | ok u => exact (checkLoop_parsing cfg hc hp P (fuelFor P) [d] t).trans e1
 
 theorem ensureChecked_clean (cfg : Config) (hc : cfg.nestedRecBindsInFrame = false) (P : Pool)
     (n : Nat) (s : State) :
@@ -363,6 +620,110 @@ theorem ensureChecked_clean (cfg : Config) (hc : cfg.nestedRecBindsInFrame = fal
     rcases h1 : checkOne cfg P n s with ⟨t, r⟩
     rw [h1] at h
     cases r <;> exact h
+
+theorem ensureChecked_parsing (cfg : Config) (hc : cfg.nestedRecBindsInFrame = false)
+    (hp : cfg.parseRestores = true) (P : Pool) (n : Nat) (s : State) :
+    (ensureChecked cfg P n s).1.parsing = s.parsing := by
+  unfold ensureChecked
+  split
+  · rfl
+  · have h := checkOne_parsing cfg hc hp P n s
+    rcases h1 : checkOne cfg P n s with ⟨t, r⟩
+    rw [h1] at h
+    cases r <;> exact h
+
+theorem ensureAll_clean (cfg : Config) (hc : cfg.nestedRecBindsInFrame = false) (P : Pool) :
+    ∀ (ds : List Nat) (s : State),
+      (ensureAll cfg P ds s).1.leaks = s.leaks ∧ (ensureAll cfg P ds s).1.tracing = s.tracing := by
+  intro ds
+  induction ds with
+  | nil => intro s; exact ⟨rfl, rfl⟩
+  | cons d ds ih =>
+    intro s
+    simp only [ensureAll]
+    have h := ensureChecked_clean cfg hc P d s
+    rcases h1 : ensureChecked cfg P d s with ⟨t, r⟩
+    rw [h1] at h
+    simp only at h
+    cases r with
+    | error e => exact h
+    | ok u => exact ⟨(ih t).1.trans h.1, (ih t).2.trans h.2⟩
+
+theorem ensureAll_parsing (cfg : Config) (hc : cfg.nestedRecBindsInFrame = false)
+    (hp : cfg.parseRestores = true) (P : Pool) :
+    ∀ (ds : List Nat) (s : State), (ensureAll cfg P ds s).1.parsing = s.parsing := by
+  intro ds
+  induction ds with
+  | nil => intro s; rfl
+  | cons d ds ih =>
+    intro s
+    simp only [ensureAll]
+    have h := ensureChecked_parsing cfg hc hp P d s
+    rcases h1 : ensureChecked cfg P d s with ⟨t, r⟩
+    rw [h1] at h
+    simp only at h
+    cases r with
+    | error e => exact h
+    | ok u => exact (ih t).trans h
+
+theorem compileOne_clean (cfg : Config) (hc : cfg.nestedRecBindsInFrame = false)
+    (ht : cfg.tracingRestored = true) (lt : Nat → Nat → Bool)
+    (P : Pool) (n : Nat) (s : State) :
+    (compileOne cfg lt P n s).1.leaks = s.leaks ∧ (compileOne cfg lt P n s).1.tracing = s.tracing := by
+  unfold compileOne
+  split
+  · simp only [ht, ↓reduceIte]
+    rename_i r c _ _
+    split
+    · split
+      · exact ⟨rfl, rfl⟩
+      · split
+        · exact ⟨rfl, rfl⟩
+        · have ha := ensureAll_clean cfg hc P r.deps { s with tracing := true, tmpCtr := s.tmpCtr + r.ctmps }
+          rcases q : ensureAll cfg P r.deps { s with tracing := true, tmpCtr := s.tmpCtr + r.ctmps } with ⟨t, o⟩
+          rw [q] at ha
+          simp only at ha
+          cases o with
+          | error e => exact ⟨ha.1, rfl⟩
+          | ok u => exact ⟨ha.1, rfl⟩
+    · generalize setRet (retAfter cfg c.core) = g
+      have ha := ensureAll_clean cfg hc P r.deps { s with checked := updChecked n g s.checked }
+      rcases q : ensureAll cfg P r.deps { s with checked := updChecked n g s.checked } with ⟨t, o⟩
+      rw [q] at ha
+      simp only at ha
+      cases o with
+      | error e => exact ha
+      | ok u => exact ha
+  · exact ⟨rfl, rfl⟩
+
+theorem compileOne_parsing (cfg : Config) (hc : cfg.nestedRecBindsInFrame = false)
+    (hp : cfg.parseRestores = true) (lt : Nat → Nat → Bool) (P : Pool) (n : Nat) (s : State) :
+    (compileOne cfg lt P n s).1.parsing = s.parsing := by
+  unfold compileOne
+  split
+  · simp only
+    rename_i r c _ _
+    split
+    · split
+      · rfl
+      · split
+        · rfl
+        · have ha := ensureAll_parsing cfg hc hp P r.deps { s with tracing := true, tmpCtr := s.tmpCtr + r.ctmps }
+          rcases q : ensureAll cfg P r.deps { s with tracing := true, tmpCtr := s.tmpCtr + r.ctmps } with ⟨t, o⟩
+          rw [q] at ha
+          simp only at ha
+          cases o with
+          | error e => exact ha
+          | ok u => exact ha
+    · generalize setRet (retAfter cfg c.core) = g
+      have ha := ensureAll_parsing cfg hc hp P r.deps { s with checked := updChecked n g s.checked }
+      rcases q : ensureAll cfg P r.deps { s with checked := updChecked n g s.checked } with ⟨t, o⟩
+      rw [q] at ha
+      simp only at ha
+      cases o with
+      | error e => exact ha
+      | ok u => exact ha
+  · rfl
 
 theorem compileLoop_clean (cfg : Config) (hc : cfg.nestedRecBindsInFrame = false)
     (ht : cfg.tracingRestored = true) (lt : Nat → Nat → Bool) (P : Pool) (f : Nat) :
@@ -385,7 +746,7 @@ theorem compileLoop_clean (cfg : Config) (hc : cfg.nestedRecBindsInFrame = false
       | error e => exact h
       | ok u =>
         simp only
-        have h2 := compileOne_clean cfg ht lt P n t
+        have h2 := compileOne_clean cfg hc ht lt P n t
         rcases h3 : compileOne cfg lt P n t with ⟨u1, r1⟩
         rw [h3] at h2
         simp only at h2
@@ -396,6 +757,36 @@ theorem compileLoop_clean (cfg : Config) (hc : cfg.nestedRecBindsInFrame = false
           have h4 := ih (pushNew (match P[n]? with | some r => r.deps | none => [])
             (n :: done ++ rest) rest).2 (n :: done) (acc ++ [e]) u1
           exact ⟨h4.1.trans (h2.1.trans h.1), h4.2.trans (h2.2.trans h.2)⟩
+
+theorem compileLoop_parsing (cfg : Config) (hc : cfg.nestedRecBindsInFrame = false)
+    (hp : cfg.parseRestores = true) (lt : Nat → Nat → Bool) (P : Pool) (f : Nat) :
+    ∀ (work done : List Nat) (acc : List OutEntry) (s : State),
+      (compileLoop cfg lt P f work done s acc).1.parsing = s.parsing := by
+  induction f with
+  | zero => intro work done acc s; cases work <;> rfl
+  | succ f ih =>
+    intro work done acc s
+    cases work with
+    | nil => rfl
+    | cons n rest =>
+      simp only [compileLoop]
+      have h := ensureChecked_parsing cfg hc hp P n s
+      rcases h1 : ensureChecked cfg P n s with ⟨t, r⟩
+      rw [h1] at h
+      simp only at h
+      cases r with
+      | error e => exact h
+      | ok u =>
+        simp only
+        have h2 := compileOne_parsing cfg hc hp lt P n t
+        rcases h3 : compileOne cfg lt P n t with ⟨u1, r1⟩
+        rw [h3] at h2
+        simp only at h2
+        cases r1 with
+        | error e => exact h2.trans h
+        | ok e =>
+          simp only
+          exact (ih _ _ _ u1).trans (h2.trans h)
 
 theorem step_clean (cfg : Config) (hc : cfg.nestedRecBindsInFrame = false)
     (ht : cfg.tracingRestored = true) (lt : Nat → Nat → Bool) (P : Pool) (o : Op) (s : State) :
@@ -419,6 +810,29 @@ theorem step_clean (cfg : Config) (hc : cfg.nestedRecBindsInFrame = false)
     split
     · exact compileLoop_clean cfg hc ht lt P (fuelFor P) [d] [] [] s
     · exact ⟨rfl, rfl⟩
+
+/-- every operation, failing ones included, leaves `parsing` empty if it was -/
+theorem step_parsing (cfg : Config) (hc : cfg.nestedRecBindsInFrame = false)
+    (hp : cfg.parseRestores = true) (lt : Nat → Nat → Bool) (P : Pool) (o : Op) (s : State)
+    (h0 : s.parsing = []) : (step cfg lt P o s).parsing = [] := by
+  cases o with
+  | check d => exact check_parsing cfg hc hp P d s h0
+  | lower d =>
+    simp only [step, lower]
+    have h := check_parsing cfg hc hp P d s h0
+    rcases h1 : check cfg P d s with ⟨t, r⟩
+    rw [h1] at h
+    simp only at h
+    cases r with
+    | error e => exact h
+    | ok u =>
+      simp only
+      exact (compileLoop_parsing cfg hc hp lt P (fuelFor P) [d] [] [] t).trans h
+  | relower d =>
+    simp only [step, relower]
+    split
+    · exact (compileLoop_parsing cfg hc hp lt P (fuelFor P) [d] [] [] s).trans h0
+    · exact h0
 
 theorem run_clean (cfg : Config) (hc : cfg.nestedRecBindsInFrame = false)
     (ht : cfg.tracingRestored = true) (lt : Nat → Nat → Bool) (P : Pool) (h : List Op) (s : State) :
@@ -446,11 +860,14 @@ structure Config.Sound (cfg : Config) : Prop where
   resets : cfg.checkResets = true
   noFrameWrite : cfg.nestedRecBindsInFrame = false
   tracingRestored : cfg.tracingRestored = true
+  parsingCleared : cfg.resetClearsParsing = true
+  parseRestores : cfg.parseRestores = true
 
 instance (cfg : Config) : Decidable cfg.Sound :=
-  if h : cfg.checkResets = true ∧ cfg.nestedRecBindsInFrame = false ∧ cfg.tracingRestored = true then
-    isTrue ⟨h.1, h.2.1, h.2.2⟩
-  else isFalse (fun s => h ⟨s.resets, s.noFrameWrite, s.tracingRestored⟩)
+  if h : cfg.checkResets = true ∧ cfg.nestedRecBindsInFrame = false ∧ cfg.tracingRestored = true ∧
+      cfg.resetClearsParsing = true ∧ cfg.parseRestores = true then
+    isTrue ⟨h.1, h.2.1, h.2.2.1, h.2.2.2.1, h.2.2.2.2⟩
+  else isFalse (fun s => h ⟨s.resets, s.noFrameWrite, s.tracingRestored, s.parsingCleared, s.parseRestores⟩)
 
 theorem exec_eq_run (cfg : Config) (lt : Nat → Nat → Bool) (P : Pool) (h : List Op) (s : State) :
     (sys cfg lt P).exec h s = run cfg lt P h s := by
@@ -474,5 +891,30 @@ theorem findChecked_updChecked (n : Nat) (f : CfgCore → CfgCore) (hf : ∀ k, 
     · rename_i hx
       simp only [hx, Bool.false_eq_true, ↓reduceIte, findChecked]
       exact ih h
+
+theorem any_id_updChecked (n m : Nat) (f : CfgCore → CfgCore) (hf : ∀ k, (f k).id = k.id) (l : List Checked) :
+    (updChecked n f l).any (·.core.id == m) = l.any (·.core.id == m) := by
+  induction l with
+  | nil => rfl
+  | cons x xs ih =>
+    simp only [updChecked, List.any_cons, ih]
+    split <;> simp [hf]
+
+/-- looking up globals that all are in the cache changes nothing -/
+theorem ensureAll_noop (cfg : Config) (P : Pool) :
+    ∀ (ds : List Nat) (s : State), (∀ d ∈ ds, s.hasChecked d = true) → ensureAll cfg P ds s = (s, .ok ()) := by
+  intro ds
+  induction ds with
+  | nil => intro s _; rfl
+  | cons d ds ih =>
+    intro s h
+    have hd : s.hasChecked d = true := h d (by simp)
+    simp only [ensureAll, ensureChecked, hd, ↓reduceIte]
+    exact ih s (fun d' hd' => h d' (by simp [hd']))
+
+theorem retAfter_stable (cfg : Config) (hg : cfg.returnVarsGuard = true) (c : CfgCore) (ext : Nat) :
+    retAfter cfg (setExt ext (setRet (retAfter cfg c) c)) = retAfter cfg c := by
+  simp only [retAfter, setExt, setRet, hg, Bool.true_and]
+  split <;> simp_all
 
 end GuppyVerif.Session
